@@ -355,6 +355,11 @@ def err_kind(ex):
     raise ex
 
 
+# wall-clock limit per rewrite step: non-termination (cyclic / inconsistent inputs) is an observable outcome ('fuel');
+# a limit hit under machine load is re-checked with a long limit in run_ops before it counts
+STEP_TIMEOUT = [3.0]
+
+
 def impl_rewrite(op):
     """run the history on the real code; the history ends at the first exception (object is left half-mutated)"""
     try:
@@ -365,7 +370,7 @@ def impl_rewrite(op):
     for st in op['steps']:
         extra = None
         try:
-            extra = with_alarm(3.0, lambda: apply_step(g, st))
+            extra = with_alarm(STEP_TIMEOUT[0], lambda: apply_step(g, st))
         except CaseTimeout:
             out['steps'].append({'err': 'fuel'})        # non-termination (cyclic / inconsistent input)
             break
@@ -516,6 +521,17 @@ def run_ops(corr, ops, metas):
         except CaseTimeout:
             impls.append({'ok': False, 'err': 'fuel'})
     replies = drive_retry(ops)
+    # a Python-side time-out that the model does not confirm as non-termination: run again with a long limit
+    for i, (op, im, mo) in enumerate(zip(ops, impls, replies)):
+        if 'fuel' in json.dumps(im) and json.dumps(im, sort_keys=True) != json.dumps(mo, sort_keys=True) \
+                and 'fuel' not in json.dumps(mo):
+            STEP_TIMEOUT[0] = 120.0
+            try:
+                impls[i] = IMPL[op['op']](json.loads(json.dumps(op)))
+            except CaseTimeout:
+                pass
+            finally:
+                STEP_TIMEOUT[0] = 3.0
     for op, im, mo, meta in zip(ops, impls, replies, metas):
         br = list(meta.get('branches', []))
         if isinstance(mo, dict) and 'branches' in mo:
